@@ -1,10 +1,14 @@
 package common
 
 import (
+	"crypto/rand"
+	"fmt"
+
 	"github.com/privacybydesign/gabi/big"
 )
 
 func init() {
+	vpHarnesses["vpC19_RandomPrime"] = vpC19_RandomPrime
 	vpHarnesses["vpC19_FastMod"] = vpC19_FastMod
 	vpHarnesses["vpC19_ModInverse"] = vpC19_ModInverse
 	vpHarnesses["vpC19_Crt"] = vpC19_Crt
@@ -149,4 +153,41 @@ func vpC19_ModSqrt4() {
 		sq := new(big.Int).Mul(r, r)
 		vpAssert("root modulo 4 squares to a", sq.Mod(sq, big.NewInt(4)).Int64() == am)
 	}
+}
+
+// vpSymReader is the random source handed to RandomPrimeInRange: arbitrary
+// bytes for the first candidates (natively: the replayed bytes, then crypto/rand).
+type vpSymReader struct{ calls int }
+
+func (r *vpSymReader) Read(p []byte) (int, error) {
+	if r.calls >= 1 {
+		// symbolically the rejection loop is cut after the first candidate
+		if vpNative() {
+			return rand.Read(p)
+		}
+		return 0, vpFreshError("no more random bytes")
+	}
+	for i := range p {
+		p[i] = vpByte(fmt.Sprintf("rnd%d_%d", r.calls, i))
+	}
+	r.calls++
+	return len(p), nil
+}
+
+// C19 RandomPrimeInRange: for interval shapes (start, length) over the byte
+// boundaries (length = 0, 1, 7 mod 8; start below, at and above 64 bits) and
+// arbitrary random bytes, a returned value p satisfies 2^start <= p <= 2^start
+// + 2^length and passed the primality test; a start below 2 bits is refused.
+// Bound: the first candidate of the rejection loop (later ones are handled by the same code).
+func vpC19_RandomPrime() {
+	cfgs := [][2]uint{{7, 8}, {16, 8}, {10, 5}, {12, 12}, {20, 16}, {30, 9}, {64, 16}, {65, 24}, {40, 17}, {9, 7}, {8, 1}}
+	c := cfgs[vpChoose("cfg", len(cfgs))]
+	p, err := RandomPrimeInRange(&vpSymReader{}, c[0], c[1])
+	vpAssume(err == nil)
+	lo := new(big.Int).Lsh(big.NewInt(1), c[0])
+	hi := new(big.Int).Add(lo, new(big.Int).Lsh(big.NewInt(1), c[1]))
+	vpAssert("random prime lies in the requested interval", p.Cmp(lo) >= 0 && p.Cmp(hi) <= 0)
+	vpAssert("random prime passed the primality test and is odd", vpIsPrime(p) && p.Bit(0) == 1)
+	_, err = RandomPrimeInRange(&vpSymReader{}, uint(vpChoose("tinyStart", 2)), c[1])
+	vpAssert("a start below 2 bits is refused", err != nil)
 }
